@@ -124,7 +124,7 @@ def _insertion_scns(tier, seed, extra=()):
     from scenarios import cat, mr, caitems, cacat, scenario
     n = 8 if tier == "quick" else 40
     scns = [
-        scenario("cat_x_cat", [cat("A", 4, miss=[2]), cat("B", 3, miss=[3])]),
+        scenario("cat_x_cat", [cat("A", 4, miss=[2]), cat("B", 4, miss=[3])]),
         scenario("cat_x_mr", [cat("A", 4, miss=[3]), mr("B", 2)]),
         scenario("mr_x_cat", [mr("A", 2), cat("B", 4, miss=[1])]),
         scenario("catdate_x_cat", [cat("A", 3, date=True), cat("B", 3)]),
@@ -166,4 +166,145 @@ def c12(tier, seed):
     )
 
 
-PROPS = {"C12": c12, "C01": c01, "C02": c02, "C03": c03, "C04": c04, "C11": c11}
+def c14(tier, seed):
+    import random
+    from scenarios import cat, mr, caitems, cacat, scenario
+    rng = random.Random(seed * 7 + 1)
+    pool = [-1, 0, 1, 2, None]
+    scns = []
+    fixed = [([1, 2, 3], [None, None, None]), ([None, 2, 1], [3, 1, 2]), ([2, 2, None], [0, -1, 1]),
+             ([None, None, None], [1, 3, 2])]
+    nrand = 4 if tier == "quick" else 24
+    assigns = fixed + [([rng.choice(pool) for _ in range(3)], [rng.choice(pool) for _ in range(3)])
+                       for _ in range(nrand)]
+    for k, (rv, cv) in enumerate(assigns):
+        scns.append(scenario("cat_x_cat.v%d" % k, [cat("A", 3, vals=rv), cat("B", 4, miss=[2], vals=cv[:1] + [5] + cv[1:])]))
+    scns.append(scenario("mr_x_cat.v", [mr("A", 2), cat("B", 3, vals=[3, 1, 2])]))
+    scns.append(scenario("cat_x_mr.v", [cat("A", 3, vals=[0, 2, 1]), mr("B", 2)]))
+    scns.append(scenario("casub_x_cacat.v", [caitems("A", 2), cacat("A", 3, vals=[1, None, 3])]))
+    scns.append(scenario("cat_x_cat_x_cat.v", [cat("T", 2), cat("A", 3, vals=[1, 2, 4]), cat("B", 2, vals=[0, 1])]))
+    for k, (rv, _) in enumerate(assigns[:5]):
+        scns.append(scenario("cat_1d.v%d" % k, [cat("A", 4, miss=[3], vals=rv[:2] + [7] + rv[2:])]))
+    scns.append(scenario("cat_x_cat.v.u", [cat("A", 3, vals=[1, 2, 3]), cat("B", 3, vals=[2, None, 1])], weighted=False))
+    ins = _with_insertions([scenario("cat_x_cat.v.ins", [cat("A", 3, vals=[1, 2, 3]), cat("B", 3, vals=[3, None, 1])]),
+                            scenario("cat_1d.v.ins", [cat("A", 4, miss=[2], vals=[1, 9, 2, 4])])],
+                           6 if tier == "quick" else 30, seed)
+    return dict(
+        jobs=_value_jobs("C14", "c14", scns + ins, tier, seed),
+        rule="numeric-value assignments from {-1,0,1,2,none} (fixed + seeded) x every bag of "
+             "<= N respondents (so zero-count categories fall anywhere in the value order) and "
+             "random larger bags; subtotal vectors via insertion configurations",
+        assumptions=ASSUME_COMMON,
+        feature_floor=("weights_differ",),
+    )
+
+
+def c15(tier, seed):
+    from scenarios import cat, mr, numarr, scenario
+    y = dict(yvals=(0, 1, 2), ymeasures=("sum",), valid_counts=True)
+    ynan = dict(y, sum_nan=True)
+    plain = [
+        scenario("cat_x_cat_s", [cat("A", 3, miss=[2]), cat("B", 3)], **y),
+        scenario("numarr_x_cat_s", [numarr("N", 2), cat("B", 3, miss=[2])], **y),
+        scenario("numarr_x_mr_s", [numarr("N", 2), mr("B", 2)], **y),
+        scenario("cat_x_mr_s", [cat("A", 2), mr("B", 2)], **y),
+        scenario("mr_x_cat_s", [mr("A", 2), cat("B", 2)], **y),
+        scenario("cat_1d_s", [cat("A", 3, miss=[1])], **y),
+        scenario("numarr_1d_s", [numarr("N", 3)], **y),
+        scenario("cat_x_cat_snan", [cat("A", 3), cat("B", 2)], **ynan),
+        scenario("numarr_x_cat_snan", [numarr("N", 2), cat("B", 2)], **ynan),
+    ]
+    ins = _with_insertions([
+        scenario("cat_x_cat_s.ins", [cat("A", 3), cat("B", 3)], **y),
+        scenario("numarr_x_cat_s.ins", [numarr("N", 2), cat("B", 3, miss=[2])], **y),
+        scenario("cat_1d_s.ins", [cat("A", 4, miss=[2])], **y),
+        scenario("cat_x_cat_snan.ins", [cat("A", 3), cat("B", 3)], **ynan),
+    ], 8 if tier == "quick" else 40, seed)
+    return dict(
+        jobs=_value_jobs("C15", "c15", plain + ins, tier, seed),
+        rule="sum responses on categorical, MR and numeric-array rows, with 0 or NaN for empty "
+             "cells, x insertion configurations on rows and/or columns x TLC-enumerated bags",
+        assumptions=ASSUME_COMMON,
+        feature_floor=("ins_rows", "ins_cols", "intersection"),
+    )
+
+
+def c16(tier, seed):
+    from scenarios import cat, mr, scenario
+    scns = [
+        scenario("cat_x_cat", [cat("A", 3, miss=[2]), cat("B", 3, miss=[1])]),
+        scenario("cat_x_cat2", [cat("A", 2), cat("B", 4, miss=[2, 4])]),
+        scenario("cat_x_mr", [cat("A", 3, miss=[3]), mr("B", 2)]),
+        scenario("mr_x_cat", [mr("A", 2), cat("B", 3, miss=[2])]),
+        scenario("mr_x_mr", [mr("A", 2), mr("B", 2)]),
+        scenario("catdate_x_cat", [cat("A", 2, date=True), cat("B", 3, miss=[3])]),
+        scenario("cat_x_cat_x_cat", [cat("T", 2), cat("A", 2), cat("B", 3, miss=[2])]),
+        scenario("cat_x_cat_x_cat.tm", [cat("T", 3, miss=[2]), cat("A", 2), cat("B", 3, miss=[1])]),
+        scenario("cat_x_cat_x_cat.tm1", [cat("T", 3, miss=[1]), cat("A", 2), cat("B", 2)]),
+        scenario("mr_x_cat_x_cat", [mr("T", 2), cat("A", 2), cat("B", 3, miss=[3])]),
+        scenario("cat_x_mr_x_cat", [cat("T", 2), mr("A", 2), cat("B", 3, miss=[1])]),
+        scenario("cat_x_cat_x_mr", [cat("T", 3, miss=[3]), cat("A", 2), mr("B", 2)]),
+    ]
+    scns += C.unweighted(scns[:2])
+    scns += _with_insertions([scenario("cat_x_cat.ins", [cat("A", 3), cat("B", 3, miss=[2])])],
+                             6 if tier == "quick" else 30, seed)
+    return dict(
+        jobs=_value_jobs("C16", "c16", scns, tier, seed),
+        rule="categorical / MR pairings, 2-D and 3-D, with missing column categories so that "
+             "conditional and unconditional row shares differ, x TLC-enumerated bags",
+        assumptions=ASSUME_COMMON,
+        feature_floor=("weights_differ",),
+    )
+
+
+def c17(tier, seed):
+    from scenarios import cat, mr, scenario
+    base = [
+        ("cat_x_cat", [cat("A", 3, miss=[2]), cat("B", 2)]),
+        ("catdate_x_cat", [cat("A", 2, date=True), cat("B", 3, miss=[1])]),
+        ("cat_x_catdate", [cat("A", 2), cat("B", 3, miss=[3], date=True)]),
+        ("mr_x_cat", [mr("A", 2), cat("B", 2)]),
+        ("mr_x_catdate", [mr("A", 2), cat("B", 2, date=True)]),
+        ("cat_1d", [cat("A", 3, miss=[2])]),
+        ("catdate_1d", [cat("A", 3, date=True)]),
+        ("mr_1d", [mr("A", 2)]),
+    ]
+    filters = [
+        None,
+        {"style": "new", "sel": 3, "oth": 1},
+        {"style": "new", "sel": 2, "oth": 3, "catdate": True},
+        {"style": "new", "sel": 0, "oth": 0},
+        {"style": "old", "fn": 1, "un": 4},
+        {"style": "old", "fn": 2, "un": 0},
+        {"style": "old", "fn": None, "un": 4},
+        {"style": "old", "fn": 3, "un": 5, "null_new": True},
+    ]
+    pops = [1000, 0, None, 1, 7]
+    scns = []
+    k = 0
+    for name, dims in base:
+        for fi, f in enumerate(filters):
+            pop = pops[k % len(pops)]
+            k += 1
+            if tier == "quick" and fi % 2 == (k // len(filters)) % 2 and fi > 1:
+                continue
+            scns.append(scenario("%s.f%d" % (name, fi), dims, population=pop, filter=f))
+    ins = _with_insertions([
+        scenario("cat_x_cat.ins", [cat("A", 3), cat("B", 3)], population=500,
+                 filter={"style": "new", "sel": 1, "oth": 1}),
+        scenario("catdate_x_cat.ins", [cat("A", 3, date=True), cat("B", 3)], population=90),
+        scenario("cat_1d.ins", [cat("A", 4, miss=[3])], population=12, filter={"style": "old", "fn": 1, "un": 3}),
+    ], 6 if tier == "quick" else 30, seed)
+    return dict(
+        jobs=_value_jobs("C17", "c17", scns + ins, tier, seed,
+                         bfs_budget=300 if tier == "quick" else 8000,
+                         sim_budget=150 if tier == "quick" else 6000),
+        rule="every filter-statistics shape (absent, new, new+cat-date, zero, old, zero "
+             "denominator, missing field, null new-style) x populations {1000,0,None,1,7} x "
+             "cat-date on rows / columns / neither x slices and strands x TLC-enumerated bags",
+        assumptions=ASSUME_COMMON,
+        feature_floor=("weights_differ",),
+    )
+
+
+PROPS = {"C15": c15, "C16": c16, "C17": c17, "C14": c14, "C12": c12, "C01": c01, "C02": c02, "C03": c03, "C04": c04, "C11": c11}
